@@ -31,6 +31,10 @@ func runC23(c *engine.Ctx) {
 	r2 := c.Rule("R2", "state = Running only on the non-empty task-start path", 1)
 	r3 := c.Rule("R3", "TaskDone in a finish handler is followed by the entry leaving Running on every path; empty-task TaskDone only for empty tasks", 2)
 	r4 := c.Rule("R4", "Paused only after a pause error released the task or at unqueued creation; only defined states are stored; peer-state report reads table and queue together", 2)
+	// a task that was popped is released exactly once on every path of its execution (C21.R4): otherwise the
+	// queue reports an active task for a request that no longer has any state
+	r5 := c.Rule("R5", "every popped task is released exactly once, whatever became of its request (C21.R4)", 2)
+	c21Release(c, r5, c.P.FuncsIn("taskqueue"))
 
 	for _, rel := range []string{"requestmanager", "responsemanager"} {
 		m := loadMgr(c, r1, rel)
